@@ -122,7 +122,7 @@ def validate(ctx, lines, rerun=None, files=None, report=True):
 
 
 def run(ctx, n=None):
-    n = n or (60 if ctx.quick else 600)
+    n = n or (60 if ctx.quick else 2400)
     lines, nprobes, pres, files = produce(ctx, n)
 
     def rerun():
